@@ -312,6 +312,79 @@ func TestC02(t *testing.T) {
 	// (i') histories: a few long-lived Options values are used again and again (as a service does), with the
 	// same and different quotes, in any order. The oracle is the stateless one of (i): whatever happened
 	// before, a quote is accepted only if its chain leads to the pool of the Options value used.
+	// one Options value that starts without a pool (the embedded Intel root decides) and is then given one, or the
+	// other way round: the genuine Intel sample and its re-rooted twin, judged by whatever TrustedRoots holds AT THE CALL
+	gen.Prop(t, "nil-pool-and-caller-pools-on-one-options-value", gen.N(300, 20000), func(t *rapid.T) {
+		forged, ts := intelReRootedSample(t)
+		fq, err := gen.RefParse(forged)
+		if err != nil {
+			gen.HarnessError(t, "re-rooted sample: %v", err)
+		}
+		var rogue *x509.Certificate
+		for rest := fq.Chain; ; {
+			var blk *pem.Block
+			blk, rest = pem.Decode(rest)
+			if blk == nil {
+				break
+			}
+			rogue, _ = x509.ParseCertificate(blk.Bytes)
+		}
+		er := embeddedIntelRoot(t)
+		o := &verify.Options{Now: &ts, Getter: gen.FailGetter{}}
+		if rapid.Bool().Draw(t, "fromDefaultOptions") {
+			o = verify.DefaultOptions()
+			o.Now, o.Getter = &ts, gen.FailGetter{}
+		}
+		state := "nil"
+		var hist []string
+		t.Repeat(map[string]func(*rapid.T){
+			"assign": func(t *rapid.T) {
+				state = rapid.SampledFrom([]string{"nil", "intel", "look-alike", "look-alike", "empty", "both"}).Draw(t, "pool")
+				switch state {
+				case "nil":
+					o.TrustedRoots = nil
+				case "intel":
+					o.TrustedRoots = x509.NewCertPool()
+					o.TrustedRoots.AddCert(er)
+				case "look-alike":
+					o.TrustedRoots = x509.NewCertPool()
+					o.TrustedRoots.AddCert(rogue)
+				case "empty":
+					o.TrustedRoots = x509.NewCertPool()
+				case "both":
+					o.TrustedRoots = x509.NewCertPool()
+					o.TrustedRoots.AddCert(er)
+					o.TrustedRoots.AddCert(rogue)
+				}
+				hist = append(hist, "TrustedRoots="+state)
+			},
+			"verify-genuine-sample": func(t *rapid.T) {
+				raw := append([]byte{}, testdata.RawQuote...)
+				gen.Eval()
+				v := gen.Call(func() error { return verify.RawTdxQuote(raw, o) })
+				hist = append(hist, "genuine sample -> "+v.Short())
+				rp := map[string]any{"kind": "c02-intel-history", "history": append([]string{}, hist...)}
+				want := state == "nil" || state == "intel" || state == "both"
+				if v.Accepted() && !want {
+					gen.Fail(t, gen.Violation{Key: "history:trusts-outside-pool:intel-sample|" + state, Oracle: "accepted => the chain ends in a certificate of the pool the Options value holds at the call", Detail: fmt.Sprintf("%v", hist), Replay: rp})
+				}
+				if !v.Accepted() && want {
+					gen.Fail(t, gen.Violation{Key: "history:rejects-trusted:intel-sample|" + state, Oracle: "a genuine chain rooted in the pool in force (nil = the embedded Intel root) is accepted", Detail: fmt.Sprintf("%v: %s", hist, v), Replay: rp})
+				}
+			},
+			"verify-re-rooted-sample": func(t *rapid.T) {
+				raw := append([]byte{}, forged...)
+				gen.Eval()
+				v := gen.Call(func() error { return verify.RawTdxQuote(raw, o) })
+				hist = append(hist, "re-rooted sample -> "+v.Short())
+				if v.Accepted() && (state == "nil" || state == "intel" || state == "empty") {
+					gen.Fail(t, gen.Violation{Key: "history:trusts-outside-pool:re-rooted-sample|" + state, Oracle: "accepted => the chain ends in a certificate of the pool the Options value holds at the call", Detail: fmt.Sprintf("%v", hist), Replay: map[string]any{"kind": "c02-intel-history", "history": append([]string{}, hist...)}})
+				}
+			},
+		})
+		gen.NonTrivial("c02intelhist", fmt.Sprint(hist))
+		gen.Class("history:nil-pool-and-caller-pools")
+	})
 	gen.Prop(t, "histories-on-long-lived-options", gen.N(400, 30000), func(t *rapid.T) {
 		s := gen.NewStream(rapid.Uint64().Draw(t, "content"), "c02h")
 		a, b := pkiWorld(t, "pki-A", s), pkiWorld(t, "pki-B", s)
@@ -382,11 +455,15 @@ func TestC02(t *testing.T) {
 			},
 			"caller-assigns-another-pool": func(t *rapid.T) {
 				// the caller replaces the TrustedRoots of a long-lived options value: from now on the new pool decides
-				i := rapid.IntRange(0, 1).Draw(t, "whichOptions")
-				if rapid.Bool().Draw(t, "toB") {
+				// (any of the values, the one that started with a nil pool and the one from DefaultOptions() included)
+				i := rapid.IntRange(0, len(opts)-1).Draw(t, "whichOptions")
+				switch rapid.SampledFrom([]string{"A", "A", "B", "B", "nil"}).Draw(t, "to") {
+				case "B":
 					opts[i].o.TrustedRoots, opts[i].roots, opts[i].name = gen.PoolOf(b.PKI.Root), []*x509.Certificate{b.PKI.Root.X}, "pool-B"
-				} else {
+				case "A":
 					opts[i].o.TrustedRoots, opts[i].roots, opts[i].name = gen.PoolOf(a.PKI.Root), []*x509.Certificate{a.PKI.Root.X}, "pool-A"
+				default:
+					opts[i].o.TrustedRoots, opts[i].roots, opts[i].name = nil, []*x509.Certificate{er}, "nil-pool"
 				}
 				hist = append(hist, fmt.Sprintf("options #%d: TrustedRoots = %s", i, opts[i].name))
 				last = [2]int{-1, -1}
@@ -418,7 +495,7 @@ func TestC02(t *testing.T) {
 		nFiles := rapid.IntRange(0, 2).Draw(t, "files")
 		nInline := rapid.IntRange(0, 2).Draw(t, "inline")
 		bundle := func(label string) string {
-			kind := rapid.SampledFrom([]string{"one", "one", "two", "with-comment", "empty", "non-pem", "pem-non-cert-only", "large-text-then-root", "root-large-text-root"}).Draw(t, label)
+			kind := rapid.SampledFrom([]string{"one", "one", "two", "with-comment", "empty", "non-pem", "pem-non-cert-only", "large-text-then-root", "root-large-text-root", "root-other-pem-block-root", "root-other-pem-block-root"}).Draw(t, label)
 			switch kind {
 			case "empty":
 				broken = "empty bundle"
@@ -440,6 +517,15 @@ func TestC02(t *testing.T) {
 			}
 			if kind == "with-comment" {
 				out = "# trusted root\n" + out + "\ntrailing text\n"
+			}
+			if kind == "root-other-pem-block-root" {
+				// a bundle file that also carries PEM blocks of other kinds (the CA's CRL, a public key, parameters, a block
+				// with headers) between two certificates: every certificate of the file is listed
+				j := rapid.IntRange(0, 2).Draw(t, label+"-firstRoot")
+				listed[j] = true
+				other := rapid.SampledFrom([]*pem.Block{{Type: "X509 CRL", Bytes: gen.MakeCRL(pkis[j].Root, pkis[j].Root.Key, gen.CRLSpec{})}, {Type: "PUBLIC KEY", Bytes: []byte{0x30, 0x03, 0x02, 0x01, 0x01}}, {Type: "EC PARAMETERS", Bytes: []byte{6, 8, 0x2a, 0x86, 0x48, 0xce, 0x3d, 3, 1, 7}}, {Type: "CERTIFICATE REQUEST", Bytes: []byte{0x30, 0}}, {Type: "TRUSTED CERTIFICATE", Bytes: pkis[3].Root.X.Raw}, {Type: "certificate", Bytes: pkis[3].Root.X.Raw}}).Draw(t, label+"-otherBlock")
+				out = string(pkis[j].Root.PEM) + string(pem.EncodeToMemory(other)) + out
+				gen.Class("rot:bundle-with-another-kind-of-pem-block-between-two-roots")
 			}
 			if kind == "large-text-then-root" || kind == "root-large-text-root" {
 				// a site-wide bundle with a lot of explanatory text (ca-certificates style): a listed certificate is
@@ -592,7 +678,7 @@ func TestC02(t *testing.T) {
 			gen.HarnessError(t, "VERIF_CHECK_TOOL is not set (the driver builds tools/check from the working tree)")
 		}
 		sh, _ := gen.Shard()
-		dir := filepath.Join(gen.VerifDir(), ".build", "c02tool", fmt.Sprint(sh))
+		dir := filepath.Join(gen.VerifDir(), ".build", "c02tool", fmt.Sprintf("%d-%d", sh, os.Getpid()))
 		_ = os.RemoveAll(dir)
 		defer os.RemoveAll(dir)
 		if err := os.MkdirAll(dir, 0o755); err != nil {
